@@ -43,19 +43,20 @@ type lineStep struct {
 }
 
 type smtpBehaviour struct {
-	ID      string                 `json:"id"`
-	Store   string                 `json:"store"`
-	Cap     int                    `json:"cap"`
-	MaxKB   int                    `json:"maxkb"`
-	Env     map[string]string      `json:"env"`
-	Lua     string                 `json:"lua"`
-	Cfg     map[string]interface{} `json:"cfg"` // abstract configuration, echoed into the reset event
-	Names   []string               `json:"names"`
-	Steps   []lineStep             `json:"steps"`
-	Timeout int                    `json:"timeout_ms"`
-	GoHooks bool                   `json:"gohooks"` // Go listeners ahead of / behind the Lua host (first-answer rule, C17)
-	NoVisit bool                   `json:"novisit"` // snapshot only the behaviour's own mailboxes (parallel sessions)
-	Group   string                 `json:"group"`   // behaviours with the same non-empty group share one server and run concurrently
+	ID          string                 `json:"id"`
+	Store       string                 `json:"store"`
+	Cap         int                    `json:"cap"`
+	MaxKB       int                    `json:"maxkb"`
+	Env         map[string]string      `json:"env"`
+	Lua         string                 `json:"lua"`
+	Cfg         map[string]interface{} `json:"cfg"` // abstract configuration, echoed into the reset event
+	Names       []string               `json:"names"`
+	Steps       []lineStep             `json:"steps"`
+	Timeout     int                    `json:"timeout_ms"`
+	GoHooks     bool                   `json:"gohooks"` // Go listeners ahead of / behind the Lua host (first-answer rule, C17)
+	NoVisit     bool                   `json:"novisit"` // snapshot only the behaviour's own mailboxes (parallel sessions)
+	Group       string                 `json:"group"`
+	FailMailbox string                 `json:"fail_mailbox"` // fault injection: the store refuses every message for this mailbox   // behaviours with the same non-empty group share one server and run concurrently
 }
 
 type smtpInput struct {
@@ -174,6 +175,19 @@ func smtpSnapshot(s storage.Store, known []string, visit bool) (boxes []SBox, er
 		errs = []string{}
 	}
 	return
+}
+
+// faultStore refuses every delivery to one mailbox (C01: a store failure during the fan-out).
+type faultStore struct {
+	storage.Store
+	fail string
+}
+
+func (f *faultStore) AddMessage(m storage.Message) (string, error) {
+	if m.Mailbox() == f.fail {
+		return "", fmt.Errorf("injected store failure for mailbox %q", f.fail)
+	}
+	return f.Store.AddMessage(m)
 }
 
 type reply struct {
@@ -320,7 +334,11 @@ func setupSMTP(b smtpBehaviour, scratch string) (*smtpEnv, error) {
 		return nil, err
 	}
 	ap := &policy.Addressing{Config: root}
-	e.mgr = &message.StoreManager{AddrPolicy: ap, Store: e.store, ExtHost: e.host}
+	var mstore storage.Store = e.store
+	if b.FailMailbox != "" {
+		mstore = &faultStore{Store: e.store, fail: b.FailMailbox}
+	}
+	e.mgr = &message.StoreManager{AddrPolicy: ap, Store: mstore, ExtHost: e.host}
 	e.server = smtp.NewServer(root.SMTP, e.mgr, ap, e.host)
 	return e, nil
 }
